@@ -187,10 +187,45 @@ def config_hash(config):
     return hashlib.sha1(json.dumps(c, sort_keys=True).encode()).hexdigest()[:16]
 
 
+# ---- family X: isolated X-point (TORPEX g-file path) --------------------------------------
+XP = dict(Rx=0.97, Zx=0.02, A=0.05, b=0.8, c3=0.4)
+
+
+def psi_xpoint(sigma=1.0):
+    Rx, Zx, A, b, c3 = XP["Rx"], XP["Zx"], XP["A"], XP["b"], XP["c3"]
+
+    def f(R, Z):
+        R = np.asarray(R, dtype=float)
+        Z = np.asarray(Z, dtype=float)
+        x, y = R - Rx, Z - Zx
+        return sigma * A * (x * x - b * y * y + c3 * x**3)
+
+    return f
+
+
+def torpex_wall():
+    th = np.linspace(0.0, 2.0 * np.pi, 100, endpoint=False)
+    return [(float(1.0 + 0.2 * np.cos(t)), float(0.0 + 0.2 * np.sin(t))) for t in th]
+
+
+def build_inputs_X(c):
+    f = psi_xpoint(c["sigma"])
+    R1D = np.linspace(0.76, 1.24, c.get("nR", 49))
+    Z1D = np.linspace(-0.24, 0.24, c.get("nZ", 49))
+    R2D, Z2D = np.meshgrid(R1D, Z1D, indexing="ij")
+    psi2D = f(R2D, Z2D)
+    xp = dict(R=XP["Rx"], Z=XP["Zx"], psi=0.0, kind="X")
+    bt = 0.077
+    return dict(R1D=R1D, Z1D=Z1D, psi2D=psi2D, psi1D=np.array([]), fpol1D=np.array([]), pressure=None,
+                wall=torpex_wall(), analytic=f, o_point=None, x_points=[xp], snorm=None, Bt_axis=bt)
+
+
 def build_inputs(config):
+    if config.get("family", "G") == "X":
+        return build_inputs_X(normalise(config))
     c = normalise(config)
     if c["family"] != "G":
-        raise ValueError("build_inputs handles family G")
+        raise ValueError("build_inputs handles families G and X")
     f0 = psi_analytic(c["geom"], c["sigma"], c["mirror"])
     a_, b_, c_, d_ = c["affine"]
     if [a_, b_, c_, d_] == [1.0, 0.0, 1.0, 0.0]:
